@@ -302,6 +302,10 @@ def gen_world(rng, rich=True, natives=True, max_depth=3):
             continue
         if rng.random() < (0.5 if n == 'k' else 0.2):
             dynamic.append([n, a, rng.randrange(1, 3)])
+    exotic = bool(dynamic) and rng.random() < 0.3
+    if rng.random() < 0.08:
+        # the top predicate itself has dynamic facts next to its clauses
+        dynamic.append(['p', 2, rng.randrange(1, 3)])
     # query
     qa = []
     for i in range(2):
@@ -323,7 +327,7 @@ def gen_world(rng, rich=True, natives=True, max_depth=3):
     if rng.random() < 0.3:
         prebind.append([['v', rng.randrange(2)], rng.choice([A('a'), A('b'), F('f', ['v', 2]), ['v', 3], I(1)])])
     return {'facts': facts, 'rules': rules, 'native': native, 'dynamic': dynamic,
-            'query': ['p', qa], 'prebind': prebind, 'has_n': ('n', 1) in callable_preds}
+            'query': ['p', qa], 'prebind': prebind, 'has_n': ('n', 1) in callable_preds, 'exotic': exotic}
 
 
 def world_source(world, without=()):
